@@ -279,10 +279,10 @@ def run(ctx):
                     ctl2[i]["rs"] = rs
         if ctl and ctl2:
             break
-    if ctl is None or ctl2 is None:
+    if (ctl is None or ctl2 is None) and not ctx.violations:
         raise Undecided("no accepted trace with a successful lookup and a bloom filter: the driver is not exercising the table")
     for name, c in (("lookup of a stored key", ctl), ("bloom answer of a stored key", ctl2)):
-        if not ctx.validate_traces("SSTPropTrace", "SSTPropTrace.cfg", [c]):
+        if c is not None and not ctx.validate_traces("SSTPropTrace", "SSTPropTrace.cfg", [c]):
             raise Undecided("negative control accepted: the trace specification does not bind the %s" % name)
     # ------------------------------------------------------------------ evidence
     realised = sum(1 for sid, wb in want_bases.items()
